@@ -112,6 +112,11 @@ def gen_cases(rng, tier):
         cases.insert(0, {'kind': 'duplicate', 'pkg': [{'name': 'r0', 'fields': [{'name': 'a', 'type': 'integer'}],
                                                         'rows': rows_enc(rows), 'pk': None}],
                          'source': None, 'target': None, 'to_end': False, 'batch_size': 1000, 'mutate_after': False, 'big': True})
+    # automatic names (res_1, res_2, ...) once earlier resources are gone, below and above ten of them
+    for n_, drop in ((3, 2), (12, 8), (12, 3), (11, 10)):
+        for via in ('delete', 'concat'):
+            cases.append({'kind': 'autoname', 'n': n_, 'drop': drop, 'via': via, 'pkg': []})
+    cases.append({'kind': 'autoname', 'n': 12, 'drop': 8, 'via': 'concat', 'then_delete': 10, 'pkg': []})
     return cases
 
 
@@ -189,7 +194,35 @@ def canon_pkg(out):
     return res
 
 
+def run_autoname(case):
+    """bare iterables get automatic names; after earlier resources were merged or deleted, a further bare iterable must
+    still get a name of its own, and a later step addressing a resource by name must hit exactly that one"""
+    n, drop = case['n'], case['drop']
+    links = [[{'i': j, 'src': 'it%d' % i} for j in range(2)] for i in range(n)]
+    firsts = ['res_%d' % (i + 1) for i in range(drop)]
+    if case['via'] == 'delete':
+        links.append(DF.delete_resource(firsts))
+    else:
+        links.append(DF.concatenate({'i': [], 'src': []}, target={'name': 'merged'}, resources=firsts))
+    links.append([{'i': j, 'src': 'late'} for j in range(3)])
+    if case.get('then_delete'):
+        links.append(DF.delete_resource('res_%d' % case['then_delete']))
+    try:
+        with quiet():
+            ds = Flow(*links).datastream()
+            rows = [list(r) for r in ds.res_iter]
+        return {'names': [d['name'] for d in ds.dp.descriptor['resources']], 'srcs': [sorted(set(r['src'] for r in rs)) for rs in rows],
+                'counts': [len(rs) for rs in rows]}
+    except Exception as e:
+        c = e
+        while type(c).__name__ == 'ProcessorError' and getattr(c, 'cause', None) is not None:
+            c = c.cause
+        return {'error': 1, 'exc': '%s: %s' % (type(c).__name__, str(c)[:200])}
+
+
 def run_impl(case):
+    if case['kind'] == 'autoname':
+        return run_autoname(case)
     res = src_resources(case['pkg'])
     steps = steps_of(case)
     one_shot = case['kind'] == 'append' and case['how'] in ('load_tuple', 'sources')
@@ -297,6 +330,19 @@ def same_res(a, b, path=True):
 
 
 def oracle(case, out):
+    if case['kind'] == 'autoname':
+        if 'error' in out:
+            return 'autoname: run failed (%s)' % out['exc']
+        if len(set(out['names'])) != len(out['names']):
+            return 'a bare iterable appended after %d automatically named resources were %s got the name of an existing resource: %r' % (
+                case['drop'], 'deleted' if case['via'] == 'delete' else 'merged', out['names'])
+        want = case['n'] - case['drop'] + (1 if case['via'] == 'concat' else 0) + 1 - (1 if case.get('then_delete') else 0)
+        if len(out['names']) != want or len(out['counts']) != want:
+            return 'autoname: %d resources (%d streams), expected %d: %r' % (len(out['names']), len(out['counts']), want, out['names'])
+        late = [i for i, s_ in enumerate(out['srcs']) if s_ == ['late']]
+        if len(late) != 1 or out['counts'][late[0]] != 3:
+            return 'autoname: the appended iterable did not come out as one resource with its own three rows: %r %r' % (out['srcs'], out['counts'])
+        return None
     exp = expected(case)
     k = case['kind']
     if exp[0] == 'reject':
@@ -364,6 +410,8 @@ def coq_pkg(p):
 
 
 def coq_term(case, out):
+    if case['kind'] == 'autoname':
+        return None
     k = case['kind']
     p = input_pkg(case)
     names = [r['name'] for r in p]
@@ -394,7 +442,7 @@ def coq_term(case, out):
 
 
 def nontrivial(case, out):
-    return 'error' in out or [r['name'] for r in out['pkg']] != [r['name'] for r in case['pkg']] or \
+    return case['kind'] == 'autoname' or 'error' in out or [r['name'] for r in out['pkg']] != [r['name'] for r in case['pkg']] or \
         any(a['rows'] != b['rows'] for a, b in zip(out['pkg'], case['pkg']))
 
 
